@@ -39,17 +39,19 @@ const (
 	sessionTimeoutMs = 300_000
 )
 
-var userKeys = []string{"k1", "k2", "k/3"}
+// "k%31" is what an escaping scheme writes for "k1" and what an unescaping scheme reads as "k1": the shadow
+// keys of the two records must not be confused whatever the encoding is
+var userKeys = []string{"k1", "k%31", "k/3"}
 
-// Oxia orders keys hierarchically: k1 < k2 < k3 < k/ < k/3 < k// (hand-written table).
+// Oxia orders keys hierarchically: k% < k%31 < k1 < k3 < k/ < k/3 < k// (hand-written table).
 type rng struct {
 	start, end string
 	members    []string
 }
 
 var ranges = []rng{
-	{"k1", "k3", []string{"k1", "k2"}},
-	{"k2", "k3", []string{"k2"}},
+	{"k%", "k3", []string{"k%31", "k1"}},
+	{"k1", "k3", []string{"k1"}},
 	{"k/", "k//", []string{"k/3"}},
 }
 
@@ -835,8 +837,8 @@ func main() {
 		"expected": "k1 survives the close as a plain record (value p3, no session); no __oxia/session key left"})
 	run.Sample(map[string]any{"history": []string{"createSession(S1)", "createSession(S2)", "ephemeralPut(S1,k/3)", "ephemeralPut(S2,k/3)", "closeSession(S1)"},
 		"expected": "k/3 owned by S2 survives; shadow keys == {__oxia/session/<S2>/k%2F3}"})
-	run.Sample(map[string]any{"history": []string{"createSession(S1)", "ephemeralPut(S1,k2)", "re-election(NewTerm+BecomeLeader)", "closeSession(S1)"},
-		"expected": "KeepAlive(S1) accepted after the election; close removes k2, the session record and the shadow"})
+	run.Sample(map[string]any{"history": []string{"createSession(S1)", "ephemeralPut(S1,k%31)", "re-election(NewTerm+BecomeLeader)", "closeSession(S1)"},
+		"expected": "KeepAlive(S1) accepted after the election; close removes k%31, the session record and the shadow"})
 	run.Assume = []string{
 		"stage 1 is sequential and runs on the real clock with 5-minute session timeouts: no session expires; expiry, heartbeat timing and races are stage 2 (virtual time)",
 		"single shard, RF=1 leader without followers; the leader change is a re-election of the same node (NewTerm + BecomeLeader), which rebuilds the session manager from the database",
